@@ -171,6 +171,10 @@ def recorded_on_every_exit(ctx, f, fld, src):
 
 
 def run(ctx):
+    percent_threshold_exact(ctx, "C08")
+    # memory_above parses its threshold through it
+    ma_init = ctx.fn1("Oomd::MemoryAbove::init")
+    ctx.check(bool(ma_init.calls("Util::parseSizeOrPercent")) or any(l.calls("Util::parseSizeOrPercent") for l in ctx.prog.lambdas_in(ma_init)) or any("parseSizeOrPercent" in (f.callee(c) or "") for f in ctx.prog.fns.values() if f.file.endswith("MemoryAbove.cpp") for c in f.calls()), "memory_above:threshold-through-parseSizeOrPercent", "who-may-call", ma_init.loc(), "memory_above converts its threshold with Util::parseSizeOrPercent", "memory_above does not use Util::parseSizeOrPercent for its threshold")
     P, cg = ctx.prog, ctx.cg
     # ------------------------------------------------ the three windowed detectors
     pa = ctx.fn1("Oomd::PressureAbove::run")
